@@ -17,7 +17,7 @@ A layout (JSON-able) is
            directory names).
   cls    = {"attr","pos","name","desc","xrank","tags","props","links","vis","disabled","ctor_fails","tests","subs"}
   test   = {"attr","pos","name","desc","tags","props","links","vis","disabled",
-            "param": None | {"sets": [[[k, v], ...], ...], "naming": None | {"name": [seg], "desc": [seg]}, "style": "dict"|"csv"|"csvtuple"}}
+            "param": None | {"sets": [[[k, v], ...], ...], "naming": None | {"name": [seg], "desc": [seg]}, "style": "dict"|"csv"|"csvtuple", "pads": [[before, after], ...] (csv: white space around each header field)}}
   vis    = None | "hidden" | True | False | cond  (None: no condition; bool: what visible_if's callable returns)
   cond   = {"pv": PV | None, "via": "const"|"env"|"envint"|"attr"|"len"|"count", "key": str, "callable": "lambda"|"obj"|"falsy-obj"}
            the callable returns the Python value PV, computed at load time: a constant, os.environ.get(KEY) (the harness sets /
@@ -223,7 +223,62 @@ def gen_param(rng):
         style = rng.choice(["dict", "csv", "csvtuple"])
     if not same_order:
         style = "dict"
-    return {"sets": sets, "naming": naming, "style": style}
+    p = {"sets": sets, "naming": naming, "style": style}
+    if style == "csv":
+        # the header is TEXT the user writes: white space before / after a field is a way of writing, not part of the name
+        p["pads"] = gen_pads(rng, len(keys))
+    return p
+
+
+# white space a user (or an editor aligning columns) puts around the fields of a CSV-like header; the rare ones are the
+# other characters `str.strip()` removes
+PAD_COMMON = ["", "", "", " ", " ", "  ", "      ", "\t", " \t", "\n"]
+PAD_RARE = ["\x0b", "\x0c", "\r\n", "\x1c", "\x1f", "\x85", "\xa0", "\u1680", "\u2003", "\u2028", "\u202f", "\u205f", "\u3000"]
+
+
+def gen_pads(rng, n):
+    """one [before, after] pair of white space per header field; half of the headers are written plainly ('i,j')"""
+    r = rng.random()
+    if r < 0.3:
+        return [["", ""] for _ in range(n)]
+    if r < 0.45:
+        return [["" if i == 0 else " ", ""] for i in range(n)]          # 'i, j'
+    def pad():
+        return rng.choice(PAD_RARE) if rng.random() < 0.08 else rng.choice(PAD_COMMON)
+    return [[pad(), pad()] for _ in range(n)]
+
+
+def csv_keys(p):
+    return [k for k, _ in p["sets"][0]] if p["sets"] else ["i"]
+
+
+def csv_header(p):
+    """the header string of a `csv` source: the declared names, each written with its padding (the padding follows the
+    position, so that a shrunk parameter list keeps a consistent header)"""
+    pads = p.get("pads") or [["", ""]]
+    return ",".join(pads[i % len(pads)][0] + k + pads[i % len(pads)][1] for i, k in enumerate(csv_keys(p)))
+
+
+def header_class(p):
+    """how the header of a csv source is written (feature / distribution label)"""
+    h = csv_header(p)
+    if h == "".join(h.split()):
+        return "plain"
+    out = []
+    fields = h.split(",")
+    if any(f != f.rstrip() for f in fields[:-1]):
+        out.append("ws-before-comma")
+    if any(f != f.lstrip() for f in fields[1:]):
+        out.append("ws-after-comma")
+    if h != h.lstrip():
+        out.append("leading-ws")
+    if h != h.rstrip():
+        out.append("trailing-ws")
+    if any(ch in h for pad in PAD_RARE for ch in pad if ch not in "\r\n"):
+        out.append("rare-ws")
+    elif any(ch in h for ch in "\t\n\r"):
+        out.append("tab-or-newline")
+    return "+".join(out)
 
 
 def _const_cond(pv, call="lambda"):
@@ -819,8 +874,8 @@ def _param_deco(p):
     if p["style"] == "dict":
         src = "[" + ", ".join("{" + ", ".join("%r: %r" % (k, v) for k, v in s) + "}" for s in sets) + "]"
     else:
-        keys = [k for k, _ in sets[0]] if sets else ["i"]
-        header = repr(",".join(keys)) if p["style"] == "csv" else repr(tuple(keys))
+        keys = csv_keys(p)
+        header = repr(csv_header(p)) if p["style"] == "csv" else repr(tuple(keys))
         rows = ", ".join(repr(tuple(v for _, v in s)) for s in sets)
         src = "(" + header + ", " + rows + ("," if rows else "") + ")"
     if p["naming"] is None:
